@@ -100,8 +100,17 @@ def universe():
                         for cwd in cwds:
                             sc = dict(w)
                             sc.update({"strategy": st, "hit": hit, "cwd": cwd,
-                                       "types": "".join(types)})
+                                       "types": "".join(types), "mp": "none"})
                             out.append(sc)
+                    # an unusable --manifest-path, given from inside a perfectly good package
+                    if len(types) <= 2 and ext_ed == "2021":
+                        for mp in ("missing", "malformed"):
+                            for (st, hit) in strategies[:3]:
+                                for cwd in (["ws"], ["ws", "m1"]):
+                                    sc = dict(w)
+                                    sc.update({"strategy": st, "hit": hit, "cwd": cwd,
+                                               "types": "".join(types), "mp": mp})
+                                    out.append(sc)
     return out
 
 
@@ -166,6 +175,11 @@ def run_one(t):
                         "STANDIN_STATUS": json.dumps({e: s for e, s in sc["status"]}),
                         "HOME": str(base), "CARGO_TARGET_DIR": str(base / "target")})
     argv = [tool, "fmt"]
+    if sc.get("mp", "none") != "none":
+        (base / "bad").mkdir()
+        if sc["mp"] == "malformed":
+            (base / "bad" / "Cargo.toml").write_text("[package\nname = \n")
+        argv += ["--manifest-path", str(base / "bad" / "Cargo.toml")]
     if sc["strategy"] == "all":
         argv.append("--all")
     for h in sc["hit"] if sc["strategy"] == "some" else []:
@@ -198,7 +212,8 @@ def run_one(t):
 
 
 def key_of(sc):
-    return (f"types={sc['types']}:virtual={sc['virtual']}:strategy={sc['strategy']}:"
+    return (("" if sc.get("mp", "none") == "none" else f"mp={sc['mp']}:") +
+            f"types={sc['types']}:virtual={sc['virtual']}:strategy={sc['strategy']}:"
             f"hit={sc['hit']}:cwd={'/'.join(sc['cwd'])}:status={sc['status']}:"
             f"ext={[p['edition'] for p in sc['packages'] if p['name'] == 'ext']}")
 
@@ -214,13 +229,14 @@ def run(tier, seed, replay=None):
     for i, s in enumerate(uni):
         s["status"] = pats[i % len(pats)]
     if tier == "quick":
-        core_s = [s for s in uni if len(s["types"]) <= 2 and s["virtual"]][:120]
+        core_s = [s for s in uni if len(s["types"]) <= 2 and s["virtual"] and s["mp"] == "none"][:120]
+        core_s += [s for s in uni if s["mp"] != "none" and len(s["types"]) == 1]
         rest = [s for s in uni if s not in core_s]
         rng.shuffle(rest)
         sel = core_s + rest[:230]
     else:
         sel = uni
-    fields = ("packages", "ws_root", "strategy", "hit", "cwd", "status")
+    fields = ("packages", "ws_root", "strategy", "hit", "cwd", "status", "mp")
     with Scratch("c18") as base:
         standin = base / "standin.py"
         standin.write_text(STANDIN)
@@ -240,7 +256,7 @@ def run(tier, seed, replay=None):
         fails = set(f["fails"])
         if "ModelAgrees" in fails:
             n_model += 1
-        bad = [x for x in ("RightTargets", "RightExit") if x in fails]
+        bad = [x for x in ("RightTargets", "RightExit", "ManifestError") if x in fails]
         if not o["args_ok"]:
             bad.append("PassThrough")
         if bad:
